@@ -136,6 +136,15 @@ def run(ctx):
     # make sure the label-free classes (the only ones that accept unlabelled units) are always in the pool
     dspecs += [{"kind": "positional", "delta": 1.0}, {"kind": "absolute", "delta": 0.5},
                {"kind": "combined", "alpha": 1.0, "beta": 1.0, "delta": 1.0, "pos": None, "cat": None}]
+    # a few editing sessions first, whatever the time budget (the session monitor is a deciding one)
+    from . import _align_common as ac0
+    for _ in range(3):
+        cs0 = cases.gen_continuum(ctx.rng, n_annot=3, max_units=3, allow_empty=False, labels=cases.LABELS_SMALL)
+        case = {"continuum": cs0, "dissim": {"kind": "positional", "delta": 1.0},
+                "session": ac0.gen_edit_ops(ctx.rng, cs0, cases.LABELS_SMALL, 4)}
+        ctx.begin_case(case)
+        ctx.observe("backend", "session")
+        check_case(ctx, case)
     # very large candidate sets (> 100 000 tuples under the cut): dense overlapping units, 5 annotators x 10-11 units
     for _ in range(ctx.scale(1, 6)):
         n, k = ctx.rng.choice([(5, 10), (5, 11), (4, 19)])
